@@ -11,6 +11,9 @@ import (
 
 func init() {
 	registry["C03"] = checkDef{level: "model_checking", run: c03, replay: func(kind string, raw json.RawMessage) int {
+		if "quietspell" == kind {
+			return quietSpellReplay(raw)
+		}
 		if "c03term" == kind {
 			fmt.Println("terminal-seam findings are replayed by re-running ./run C03 quick (the enumeration takes seconds); the failing case is in the artefact")
 			return 2
@@ -90,6 +93,7 @@ func c03(r *ev.Result, tier string) {
 	exploreProfiles(r, budget, c03Profiles(isQuick(tier))...)
 	/* The HTTP seam: the same clauses through the real handlers over TLS. */
 	c03HTTP(r)
+	quietSpell(r, "C03")
 	/* The terminal seam: the real Shell on a pty shows exactly what the
 	operator channel carries, in order, however far behind it is. */
 	maxLen := 4
@@ -97,6 +101,6 @@ func c03(r *ev.Result, tier string) {
 		maxLen = 6
 	}
 	runTermSeam(r, "c03", maxLen, "c03term")
-	r.Rule += fmt.Sprintf("; plus the terminal seam: every sequence of <=%d items over {plain chunk, chunk without newline, multi-line chunk, close-style notice, status line} through the real opshell.Shell on a pty, delivered stepwise, as a burst, and as a backlog queued before the Shell starts reading; the terminal (ANSI sequences removed) must equal the CR-LF translation of the plain chunks and the notices, in order", maxLen)
+	r.Rule += fmt.Sprintf("; plus the terminal seam: every sequence of <=%d items over {plain chunk, chunk without newline, multi-line chunk, chunk with CR LF, a chunk that repeats byte for byte, close-style notice, status line} through the real opshell.Shell on a pty, delivered stepwise, as a burst, and as a backlog queued before the Shell starts reading; the terminal (ANSI sequences removed) must equal the CR-LF translation of the plain chunks and the notices, in order", maxLen)
 	r.Assume("Ctrl+O muting is C19's subject; goxterm's own LF->CRLF translation in raw mode is the only permitted difference between the channel and the terminal")
 }
